@@ -1,4 +1,5 @@
 import Cellml.Expr.Basic
+import Cellml.Units.Lemmas
 
 /-! The CellML unit rules (spec 1.0/1.1 Appendix C.3; the rule list of property C04) as a recursive function on
     SEMANTIC units. A semantic unit is a pair `(scale, root container)`: the positive real factor (prime ↦ exponent)
@@ -6,6 +7,8 @@ import Cellml.Expr.Basic
     intermediate results, magnitudes carried along, or the order in which checks are made: only leaves are expanded
     (`Units.toRoot`), everything else is arithmetic on semantic units, compared by meaning (`PMap.beq`, which decides
     `≃` exactly: PMapCanon.beq_iff_equiv). Core Lean only. -/
+
+set_option linter.constructorNameAsVariable false
 
 namespace Spec
 open Units
@@ -112,5 +115,44 @@ def SimpleExps : E → Bool
   | .ite _ t el => SimpleExps t && SimpleExps el
   | .abs a | .floor a | .ceil a | .fn1 _ a | .not a => SimpleExps a
   | _ => true
+
+/-- The same rules as an inductive typing relation `HasUnit reg Γ e su` ("`e` is consistent and has the unit `su`"),
+    with every comparison spelled out as equality of meaning `≃₂` / `≃`. `specUnit` is its decision procedure
+    (`specUnit_hasUnit`, `hasUnit_specUnit` in Props/C04.lean). -/
+inductive HasUnit (reg : Registry) (Γ : VarEnv) : E → SUnit → Prop where
+  | qty (v : Rat) (u : Container) : HasUnit reg Γ (.qty v u) (toRoot reg u)
+  | cf (s : Scale) (u : Container) : HasUnit reg Γ (.cf s u) (toRoot reg u)
+  | var (i : Nat) (vi : VarInfo) : Γ[i]? = some vi → HasUnit reg Γ (.var i) (toRoot reg vi.unit)
+  | int (n : Int) : HasUnit reg Γ (.int n) one
+  | rat (q : Rat) : HasUnit reg Γ (.rat q) one
+  | flt (q : Rat) : HasUnit reg Γ (.flt q) one
+  | pi : HasUnit reg Γ .pi one
+  | e : HasUnit reg Γ .e one
+  | oo : HasUnit reg Γ .oo one
+  | nan : HasUnit reg Γ .nan one
+  /-- product: no restriction, units multiply -/
+  | mul {a b : E} {x y : SUnit} : HasUnit reg Γ a x → HasUnit reg Γ b y → HasUnit reg Γ (.mul a b) (mul x y)
+  /-- power with a numeric exponent: the exponent is dimensionless, the unit is raised to its value -/
+  | powNum {b x : E} {sb sx : SUnit} {q : Rat} : HasUnit reg Γ b sb → HasUnit reg Γ x sx → sx ≃₂ one →
+      constVal x = some q → HasUnit reg Γ (.pow b x) (pow q sb)
+  /-- power with any other dimensionless exponent: the base must be a dimensionless number -/
+  | powOne {b x : E} {sb sx : SUnit} : HasUnit reg Γ b sb → HasUnit reg Γ x sx → sx ≃₂ one → sb ≃₂ one →
+      constVal x = none → HasUnit reg Γ (.pow b x) one
+  /-- sum: operands of the same unit -/
+  | add {a b : E} {x y : SUnit} : HasUnit reg Γ a x → HasUnit reg Γ b y → x ≃₂ y → HasUnit reg Γ (.add a b) x
+  /-- last piece of a piecewise (the condition is not inspected) -/
+  | iteLast {c t : E} {x : SUnit} : HasUnit reg Γ t x → HasUnit reg Γ (.ite c t .undef) x
+  /-- piecewise: pieces of the same unit -/
+  | ite {c t el : E} {x y : SUnit} : el ≠ .undef → HasUnit reg Γ t x → HasUnit reg Γ el y → x ≃₂ y →
+      HasUnit reg Γ (.ite c t el) x
+  | abs {a : E} {x : SUnit} : HasUnit reg Γ a x → HasUnit reg Γ (.abs a) x
+  | floor {a : E} {x : SUnit} : HasUnit reg Γ a x → HasUnit reg Γ (.floor a) x
+  | ceil {a : E} {x : SUnit} : HasUnit reg Γ a x → HasUnit reg Γ (.ceil a) x
+  /-- exp, log, trigonometric … functions: argument of dimension zero, dimensionless result -/
+  | fn1 {f : String} {a : E} {x : SUnit} : HasUnit reg Γ a x → dimsOfRoot reg x.2 ≃ [] →
+      HasUnit reg Γ (.fn1 f a) one
+  /-- derivative: the quotient unit -/
+  | deriv (v t : Nat) (vi ti : VarInfo) : Γ[v]? = some vi → Γ[t]? = some ti →
+      HasUnit reg Γ (.deriv v t) (div (toRoot reg vi.unit) (toRoot reg ti.unit))
 
 end Spec
